@@ -215,7 +215,10 @@ type pipeline struct {
 	name    string
 	wrapper string
 	gen     func(rnd *hx.Rand, size int) []byte // the primary download (bytes in transit)
-	valid   func(transit []byte) bool
+	// genStored is the same download with a wrapper that stores the
+	// plaintext verbatim (nil: the pipeline has no such form)
+	genStored func(rnd *hx.Rand, size int) []byte
+	valid     func(transit []byte) bool
 	fixed   [][]byte // fixed transit bodies (corpus) used instead of gen
 	// class is the target whose still-valid finding this pipeline shares
 	// (only the uncompressed downloads have one)
@@ -389,6 +392,12 @@ func pipelines(corpus string) []pipeline {
 		if fixed == nil {
 			p.gen = func(rnd *hx.Rand, n int) []byte { return compress(kind, genOVAL(rnd, fl, n)) }
 		}
+		switch kind {
+		case "gzip":
+			p.genStored = func(rnd *hx.Rand, n int) []byte { return gzStored(genOVAL(rnd, fl, n)) }
+		case "zstd":
+			p.genStored = func(rnd *hx.Rand, n int) []byte { return zstRaw(genOVAL(rnd, fl, n)) }
+		}
 		return p
 	}
 	mkOracle := func(uri, comp string) (driver.Updater, error) { return oracle.NewUpdater(2021, oracle.WithURL(uri, comp)) }
@@ -406,6 +415,7 @@ func pipelines(corpus string) []pipeline {
 
 	// aws: mirror list, repomd.xml, then the gzip'd updateinfo
 	ps = append(ps, pipeline{name: "aws", wrapper: "gzip", gen: func(rnd *hx.Rand, n int) []byte { return gz(genAWS(rnd, n)) }, valid: validAWS,
+		genStored: func(rnd *hx.Rand, n int) []byte { return gzStored(genAWS(rnd, n)) },
 		plain: unz("gzip"), loop: "one-xml-drain", stage: "aws",
 		site: func([]byte) map[string][]byte {
 			return map[string][]byte{"mirror.list": []byte("http://mirror.test/al1\nhttp://mirror2.test/al1\n"), "repomd.xml": awsRepomd}
@@ -441,6 +451,7 @@ func pipelines(corpus string) []pipeline {
 
 	// epss: gzip'd CSV
 	ps = append(ps, pipeline{name: "epss", wrapper: "gzip", gen: func(rnd *hx.Rand, n int) []byte { return gz(genEPSSCSV(rnd, 2*n)) },
+		genStored: func(rnd *hx.Rand, n int) []byte { return gzStored(genEPSSCSV(rnd, 2*n)) },
 		valid: validWrapped("gzip", validEPSSCSV), routes: one(".csv.gz"), plain: unz("gzip"), loop: "csv-epss", stage: "inline",
 		mk: func(c *http.Client) (driver.Updater, driver.ConfigUnmarshaler, error) {
 			return &epss.Enricher{}, jsonConfig(map[string]string{"url": "http://epss.test/epss_scores-2024-10-25.csv.gz"}), nil
@@ -448,6 +459,7 @@ func pipelines(corpus string) []pipeline {
 
 	// cvss: one .meta and one .json.gz per year; the damaged download is the year 2002 file
 	ps = append(ps, pipeline{name: "cvss", wrapper: "gzip", gen: func(rnd *hx.Rand, n int) []byte { return gz(genNVD(rnd, 2002, 2*n)) },
+		genStored: func(rnd *hx.Rand, n int) []byte { return gzStored(genNVD(rnd, 2002, 2*n)) },
 		valid: validWrapped("gzip", validNVD), plain: unz("gzip"), loop: "one-json-drain", stage: "inline",
 		site: func([]byte) map[string][]byte { return map[string][]byte{"meta": cvssMeta, "other-year": cvssOther} },
 		routes: func(b body, aux map[string]body) []route {
@@ -468,6 +480,7 @@ func pipelines(corpus string) []pipeline {
 	// vex: archive_latest.txt, HEAD + GET of the tar.zst archive, changes.csv
 	// (with one GET per changed advisory) and deletions.csv
 	ps = append(ps, pipeline{name: "vex", wrapper: "tar.zst", gen: func(rnd *hx.Rand, n int) []byte { return genVEXArchive(rnd, n+2) },
+		genStored: func(rnd *hx.Rand, n int) []byte { return genVEXArchiveRaw(rnd, n+2) },
 		valid: validVEXArchive, site: vexSite,
 		partValid: func(name string) func([]byte) bool {
 			switch {
@@ -629,6 +642,11 @@ func runPipelines(r *hx.Run, rnd *hx.Rand, cfg hx.Config) {
 		for i := 0; i < cfg.N(1, 5) && !r.Stop(); i++ {
 			transit := p.gen(rnd, 1+rnd.Intn(cfg.N(2, 4)))
 			sweepPipeline(r, p, transit, i, rnd.Fork(), cfg)
+		}
+		if p.genStored != nil && !r.Stop() {
+			// the wrapper that stores: only its trailing checksum protects the content
+			r.Count("pipe-stored:" + p.name)
+			sweepPipeline(r, p, p.genStored(rnd, 1+rnd.Intn(2)), 100, rnd.Fork(), cfg)
 		}
 	}
 }
